@@ -458,3 +458,47 @@ Section Code.
     exact (keeps_stack _ st []).
   Qed.
 End Code.
+
+(* ------------------------------------------ the chains of `and` / `or` by name *)
+Lemma and_chain_fix : forall g sp h' x,
+  (fix chain (x : expr) {struct x} : option (list instr) :=
+     match x with
+     | EAnd x1 x2 =>
+         join_and (chain x1)
+           (match bconst x2 with Some true => None | _ => Some (emit_bool g sp h' x2) end)
+     | _ => match bconst x with Some true => None | _ => Some (emit_bool g sp h' x) end
+     end) x = and_chain g sp h' x.
+Proof.
+  intros g sp h'. induction x; try reflexivity.
+  cbn [and_chain]. rewrite <- IHx1. reflexivity.
+Qed.
+Lemma emit_and_eq : forall g sp h a b,
+  emit g sp h (EAnd a b) = catch_undef 1 (fun h' => code_and (and_chain g sp h' (EAnd a b))) [IConst (V32 0)].
+Proof.
+  intros. cbn [emit and_chain]. unfold catch_undef. do 3 f_equal.
+  f_equal. apply and_chain_fix.
+Qed.
+Lemma or_chain_fix : forall g sp x,
+  (fix chain (x : expr) {struct x} : option (list instr) :=
+     match x with
+     | EOr x1 x2 =>
+         join_or (chain x1)
+           (match bconst x2 with
+            | Some false => None
+            | _ => Some (catch_undef 1 (fun h' => emit_bool g sp h' x2) [IConst (V32 0)])
+            end)
+     | _ => match bconst x with
+            | Some false => None
+            | _ => Some (catch_undef 1 (fun h' => emit_bool g sp h' x) [IConst (V32 0)])
+            end
+     end) x = or_chain g sp x.
+Proof.
+  intros g sp. induction x; try reflexivity.
+  cbn [or_chain]. rewrite <- IHx1. reflexivity.
+Qed.
+Lemma emit_or_eq : forall g sp h a b,
+  emit g sp h (EOr a b) = [IBlock 1 (code_or (or_chain g sp (EOr a b)))].
+Proof.
+  intros. cbn [emit or_chain]. do 3 f_equal.
+  f_equal. apply or_chain_fix.
+Qed.
